@@ -351,11 +351,16 @@ class _Backed:
 class _DrawnShuffle:
     """stands in for the AgentSet's random source: `shuffle` draws a fixed permutation"""
 
-    def __init__(self, kind):
+    def __init__(self, kind, perm=None):
         self.kind = kind
+        self.perm = perm
 
     def shuffle(self, lst):
-        if self.kind == "rev":
+        if self.kind == "perm":
+            # the draw: position perm[j] goes to position j; anything but a permutation of the positions is not a draw
+            if sorted(self.perm) == list(range(len(lst))):
+                lst[:] = [lst[i] for i in self.perm]
+        elif self.kind == "rev":
             lst.reverse()
         elif lst:
             lst.append(lst.pop(0))
@@ -372,9 +377,10 @@ def _int_key(a):
 def reorder_agents(m, ws):
     """in-place reorderings of model.agents through the public AgentSet calls"""
     kind, ags = ws[1], m.agents
-    if kind in ("rev", "rot") and len(ws) == 2:
+    if (kind in ("rev", "rot") and len(ws) == 2) or (kind == "perm" and len(ws) in (2, 3)):
+        perm = [to_nat(x) for x in ws[2].split(",")] if len(ws) == 3 else []
         saved = ags.random
-        ags.random = _DrawnShuffle(kind)
+        ags.random = _DrawnShuffle(kind, perm)
         try:
             ags.shuffle(inplace=True)
         finally:
@@ -1136,10 +1142,11 @@ def check_op_shape(ws):
     elif k in ("remove", "mdel", "stop"):
         to_nat(ws[1])
     elif k == "reorder":
-        if not ((len(ws) == 2 and ws[1] in ("rev", "rot", "ida", "idd")) or (len(ws) == 3 and ws[1] in ("ata", "atd"))):
+        if not ((len(ws) == 2 and ws[1] in ("rev", "rot", "ida", "idd", "perm")) or (len(ws) == 3 and ws[1] in ("ata", "atd", "perm"))):
             raise BadOp(ws)
         if len(ws) == 3:
-            to_nat(ws[2])
+            for x in (ws[2].split(",") if ws[1] == "perm" else [ws[2]]):
+                to_nat(x)
     elif k == "mset":
         to_nat(ws[1])
         try:
@@ -1436,6 +1443,7 @@ def gen_collect_scenario(R, reject_bias=0.0, n_ops=None):
     lines = ["scenario collect", *head, "start"]
     n_agents = 0
     removed = set()
+    live = set()
     list_attrs = set()
     if raising:
         # attributes the raising model reporters need: mostly present at first, so that a later `mdel` makes them raise
@@ -1452,7 +1460,7 @@ def gen_collect_scenario(R, reject_bias=0.0, n_ops=None):
     reorders = R.random() < 0.3
     for _ in range(n_ops or R.randrange(6, 30)):
         if reorders and R.random() < 0.14:
-            lines.append(gen_reorder(R))
+            lines.append(gen_reorder(R, len(live)))
             continue
         k = R.random()
         if k < 0.16:
@@ -1460,10 +1468,12 @@ def gen_collect_scenario(R, reject_bias=0.0, n_ops=None):
             attrs = " ".join(f"{a}={R.choice(VALS)}" for a in R.sample(range(3), n_attrs))
             lines.append(f"create {R.randrange(ncls)} {attrs}".rstrip())
             n_agents += 1
+            live.add(n_agents)
         elif k < 0.22 and n_agents:
             i = R.randrange(1, n_agents + 2)  # sometimes an id that never existed, sometimes twice
             lines.append(f"remove {i}")
             removed.add(i)
+            live.discard(i)
         elif k < 0.34:
             lines.append("step")
         elif k < 0.42:
@@ -1497,8 +1507,16 @@ def gen_collect_scenario(R, reject_bias=0.0, n_ops=None):
     return core.Scenario(lines, {})
 
 
-def gen_reorder(R):
-    k = R.choice(["rev", "rev", "rot", "rot", "ida", "idd", "ata", "atd"])
+def gen_reorder(R, n=None):
+    """`n` = number of agents registered at that point, if the generator knows it (a shuffle may draw any order)"""
+    k = R.choice(["rev", "rot", "perm", "perm", "ida", "idd", "ata", "atd"])
+    if k == "perm":
+        m = n if n is not None and R.random() < 0.9 else R.randrange(5)
+        p = list(range(m))
+        R.shuffle(p)
+        if p and R.random() < 0.08:
+            p[R.randrange(len(p))] = R.randrange(len(p) + 1)  # (mostly) not a permutation: the order stays
+        return ("reorder perm " + ",".join(map(str, p))).rstrip()
     return f"reorder {k}" + (f" {R.randrange(3)}" if k in ("ata", "atd") else "")
 
 
